@@ -144,3 +144,101 @@ class Raw:
             if tag == 0:
                 break
         return out
+
+
+# ---------------------------------------------------------------- raw hash tables (reference side)
+def gnu_hash(name):
+    if not isinstance(name, bytes):
+        name = name.encode('utf-8')
+    h = 5381
+    for c in name:
+        h = (h * 33 + c) & 0xffffffff
+    return h
+
+
+def sysv_hash(name):
+    """The gABI hash on 32-bit unsigned arithmetic."""
+    if not isinstance(name, bytes):
+        name = name.encode('utf-8')
+    h = 0
+    for c in name:
+        h = ((h << 4) + c) & 0xffffffff
+        g = h & 0xf0000000
+        if g:
+            h ^= g >> 24
+        h &= ~g & 0xffffffff
+    return h
+
+
+class RawGnuHash:
+    def __init__(self, raw, off, size):
+        self.raw = raw
+        self.off = off
+        u = raw.u
+        self.nbuckets = u(off, 4)
+        self.symoffset = u(off + 4, 4)
+        self.bloom_size = u(off + 8, 4)
+        self.bloom_shift = u(off + 12, 4)
+        self.xw = 4 if raw.cls == 32 else 8
+        self.bloom_off = off + 16
+        self.buckets_off = self.bloom_off + self.bloom_size * self.xw
+        self.chain_off = self.buckets_off + self.nbuckets * 4
+        self.end = off + size
+        self.ok = self.nbuckets < 1 << 20 and self.bloom_size < 1 << 20 and self.chain_off <= self.end
+        if self.ok:
+            self.buckets = [u(self.buckets_off + 4 * i, 4) for i in range(self.nbuckets)]
+            self.nchain = (self.end - self.chain_off) // 4
+
+    def chain_word_off(self, symidx):
+        return self.chain_off + 4 * (symidx - self.symoffset)
+
+    def chain_word(self, symidx):
+        return self.raw.u(self.chain_word_off(symidx), 4)
+
+    def chains(self):
+        """bucket -> list of symbol indices, by walking the raw words (bounded, cycle-free by construction)."""
+        out = {}
+        for b, start in enumerate(self.buckets):
+            if start < self.symoffset:
+                continue
+            idx = start
+            lst = []
+            while idx - self.symoffset < self.nchain:
+                lst.append(idx)
+                if self.chain_word(idx) & 1:
+                    break
+                idx += 1
+            out[b] = lst
+        return out
+
+    def bloom_bits(self, h):
+        """(byte offset of the bloom word, mask) for hash h."""
+        bits = self.xw * 8
+        word = (h // bits) % self.bloom_size if self.bloom_size else 0
+        mask = (1 << (h % bits)) | (1 << ((h >> self.bloom_shift) % bits))
+        return self.bloom_off + word * self.xw, mask
+
+
+class RawSysvHash:
+    def __init__(self, raw, off, size):
+        self.raw = raw
+        u = raw.u
+        self.nbucket = u(off, 4)
+        self.nchain = u(off + 4, 4)
+        self.ok = 8 + 4 * (self.nbucket + self.nchain) <= size and self.nbucket < 1 << 20
+        if self.ok:
+            self.buckets = [u(off + 8 + 4 * i, 4) for i in range(self.nbucket)]
+            self.chain = [u(off + 8 + 4 * self.nbucket + 4 * i, 4) for i in range(self.nchain)]
+
+    def chains(self):
+        out = {}
+        for b, start in enumerate(self.buckets):
+            lst = []
+            idx = start
+            seen = set()
+            while idx != 0 and idx < self.nchain and idx not in seen:
+                seen.add(idx)
+                lst.append(idx)
+                idx = self.chain[idx]
+            out[b] = lst
+        return out
